@@ -7,6 +7,7 @@ package keystore
 
 import (
 	"encoding/hex"
+	"encoding/json"
 	"fmt"
 	"reflect"
 	"testing"
@@ -284,7 +285,9 @@ func TestVerifC02(t *testing.T) {
 		"BFS over wallet operation histories on the real manager+ldb store (canonical state = reference model + hidden-state fingerprint, replay per transition); in every reached state: refused open with wrong public passphrases leaves the raw store unchanged, reopen with the current one shows a snapshot (keystores, remarks, address sets with (branch,index,pubkey), next indices, ordinals) equal to the running instance and the reference, wrong/superseded/public/ill-formed private passphrases do not unlock, the current one does and every key signs, next addresses continue at the same index; distinct_nontrivial = distinct canonical states")
 }
 
-func wRunProp(c *wCtx, depth int, rule string) {
+func wRunProp(c *wCtx, depth int, rule string) { wRunPropX(c, depth, nil, rule) }
+
+func wRunPropX(c *wCtx, depth int, extra func(), rule string) {
 	r := c.r
 	if p := r.ReplayPath(); p != "" {
 		var rp wReplay
@@ -309,6 +312,9 @@ func wRunProp(c *wCtx, depth int, rule string) {
 	}
 	res := c.explore(depth)
 	c.finishEvidence(res, depth)
+	if extra != nil {
+		extra()
+	}
 	r.Sample(map[string]interface{}{"history": []string{c.ops[0].String(), c.ops[len(c.ops)/2].String(), c.ops[len(c.ops)-1].String()}, "note": "passphrase arguments are symbolic: -2 current private, -3 the other private candidate, -4 current public, -5 the other public candidate, -6 a superseded private passphrase"})
 	r.Assume("scrypt N lowered to 16 (parameter is data, not logic)", "store = real ldb driver on goleveldb MemStorage", "seeds/passphrases/remarks from small fixed sets; keystores identified by seed index; expected ids and public keys are recorded at first observation and must be reproduced by every later observation")
 	r.Finish(rule)
@@ -406,4 +412,600 @@ func TestVerifC06(t *testing.T) {
 	}
 	wRunProp(c, vk.Pick(r, 6, 7),
 		"BFS over wallet histories with 1-3 keystores mixing GenerateNewPublicKey (map-order nondeterminism resolved by treating the observed keystore as part of the operation) with NextAddresses, lock changes, export/delete/import and restart; after every operation: the returned ordinal equals the owning keystore's next external index (consecutive, no gaps), the key was never observed at another position, GetPublicKeyOrdinal returns the same ordinal for every issued key now and after a restart, and issuance after the restart continues at the next ordinal; distinct_nontrivial = distinct canonical states. The concurrent part of C06 is decided by the C14 harness.")
+}
+
+// ------------------------------------------------------------------ C03
+
+// wLockedClean: while the reference says locked, no keystore may be unlocked,
+// nothing may sign and no *working* secret may be in memory.
+func wLockedClean(c *wCtx, in *wInst, m *wModel, hist []wOp, when string) bool {
+	if m.Unlocked {
+		return true
+	}
+	if !in.km.IsLocked() {
+		c.viol("unlocked-without-passphrase", when, "wallet reports unlocked while the reference is locked", hist)
+		return false
+	}
+	for _, am := range in.km.managedKeystores {
+		if am.unlocked {
+			c.viol("partial-unlock", when, "a keystore is unlocked while the wallet is locked", hist)
+			return false
+		}
+	}
+	c.mu.Lock()
+	c.lockedScans++
+	c.mu.Unlock()
+	for _, s := range in.secretScan(m) {
+		if s.Working {
+			c.viol("secret-in-memory-while-locked", s.Field+"@"+when, fmt.Sprintf("while locked, %s holds a working secret", s.Field), hist)
+			return false
+		}
+		c.r.Add("diagnostic_nonworking_residue_"+s.Field, 1)
+	}
+	return true
+}
+
+func wAllUnlocked(in *wInst) bool {
+	for _, am := range in.km.managedKeystores {
+		if !am.unlocked {
+			return false
+		}
+	}
+	return !in.km.IsLocked()
+}
+
+func TestVerifC03(t *testing.T) {
+	r := vk.Start("C03", "exploration")
+	c := &wCtx{r: r, prop: "C03", obs: newWObs()}
+	c.ops = []wOp{
+		{K: oNew, S: 0, P: wCur, P2: -1}, {K: oNew, S: 1, P: wCur, P2: -1}, {K: oNew, S: 1, P: wWrong, P2: -1}, {K: oNew, S: 2, P: wBad, P2: -1},
+		{K: oNext, S: 0, N: 1, P2: -1}, {K: oNext, S: 1, N: 1, Internal: true, P2: -1},
+		{K: oUnlock, P: wCur, P2: -1}, {K: oUnlock, P: wWrong, P2: -1}, {K: oUnlock, P: wPrevious, P2: -1}, {K: oLock, P2: -1},
+		{K: oChPriv, P: wCur, P2: wWrong}, {K: oChPriv, P: wWrong, P2: wCur}, {K: oChPriv, P: wCur, P2: wCurPub},
+		{K: oChPub, P: wCurPub, P2: wWrongPub}, {K: oChPub, P: wCurPub, P2: wCur},
+		{K: oExport, S: 0, P: wCur, P2: -1, Slot: 0}, {K: oExport, S: 0, P: wWrong, P2: -1, Slot: 0},
+		{K: oDelete, S: 0, P: wCur, P2: -1}, {K: oDelete, S: 0, P: wWrong, P2: -1},
+		{K: oImport, Slot: 0, P: wCur, P2: -1}, {K: oImport, Slot: 0, P: wPrevious, P2: wCur}, {K: oImport, Slot: 0, P: wCur, P2: wWrong},
+		{K: oRestart, P: wCurPub, P2: -1},
+	}
+	var probes int64
+	c.tail = func(c *wCtx, in *wInst, m *wModel, hist []wOp, res wResult) bool {
+		last := wKindName[hist[len(hist)-1].K]
+		if !wLockedClean(c, in, m, hist, last) {
+			return false
+		}
+		if m.Unlocked && len(m.Ks) > 0 && !wAllUnlocked(in) {
+			c.viol("partial-unlock", last, "wallet is unlocked but a keystore is not", hist)
+			return false
+		}
+		if cl, st, msg := wSignAll(c, in, m, false); msg != "" {
+			c.viol(cl, st, msg, hist)
+			return false
+		}
+		// --- probes with every wrong passphrase class; each must be refused and change nothing
+		wrongs := []int{wResolvePass(m, wWrong), wResolvePass(m, wPrevious), m.Pub, wBad, wOther}
+		pass := func(i int) []byte { return []byte(wPass[i]) }
+		for _, wp := range wrongs {
+			if len(m.Ks) == 0 {
+				break
+			}
+			if wp == m.Priv {
+				continue
+			}
+			probe := func(name string, ok bool) bool {
+				probes++
+				if ok {
+					c.viol("wrong-passphrase-accepted", name, fmt.Sprintf("%s succeeded with %q; current private passphrase is %q", name, wPass[wp], wPass[m.Priv]), hist)
+					return false
+				}
+				return wLockedClean(c, in, m, hist, name+"-refused")
+			}
+			if !m.Unlocked {
+				if !probe("Unlock", in.km.Unlock(pass(wp)) == nil) {
+					return false
+				}
+			}
+			for seed := range m.Ks {
+				id := c.obs.idOf(seed)
+				_, err := in.km.ExportKeystore(id, pass(wp))
+				if !probe("Export", err == nil) {
+					return false
+				}
+				ok, err := in.km.DeleteKeystore(id, pass(wp))
+				if !probe("Delete", err == nil && ok) {
+					return false
+				}
+			}
+			for _, np := range []int{wOther, wResolvePass(m, wWrong)} {
+				if np == wp {
+					continue
+				}
+				if !probe("ChangePriv", in.km.ChangePrivPassphrase(pass(wp), pass(np), wFast) == nil) {
+					return false
+				}
+			}
+			if f := m.Files[0]; f != nil && wp != f.Pass && m.Ks[f.Seed] == nil {
+				_, _, err := in.km.ImportKeystore(f.data, pass(wp), pass(m.Priv))
+				if !probe("Import", err == nil) {
+					return false
+				}
+			}
+			// a new keystore under a different private passphrase is refused
+			if wWellFormed(wp) && wp != m.Pub {
+				_, err := in.km.NewKeystore(pass(wp), wSeed(7), "", in.km.params, wFast)
+				if !probe("New", err == nil) {
+					return false
+				}
+			}
+		}
+		snap, e := in.snapshot()
+		if e != "" || snap.matchModel(m, c.obs) != "" {
+			c.viol("refused-operation-changed-state", last, "state differs from the reference after refused operations: "+e+snap.matchModel(m, c.obs), hist)
+			return false
+		}
+		if len(m.Ks) == 0 {
+			return true
+		}
+		// --- the current passphrase: guarded operations work, and leave a locked wallet clean
+		for seed := range m.Ks {
+			if _, err := in.km.ExportKeystore(c.obs.idOf(seed), pass(m.Priv)); err != nil {
+				c.viol("current-passphrase-refused", "Export", err.Error(), hist)
+				return false
+			}
+			if !wLockedClean(c, in, m, hist, "Export") {
+				return false
+			}
+		}
+		oldp, newp := m.Priv, wOther
+		if err := in.km.ChangePrivPassphrase(pass(oldp), pass(newp), wFast); err != nil {
+			c.viol("current-passphrase-refused", "ChangePriv", err.Error(), hist)
+			return false
+		}
+		mm := *m
+		mm.Priv = newp
+		if !wLockedClean(c, in, &mm, hist, "ChangePriv") {
+			return false
+		}
+		// restart: the superseded passphrase stays dead, the new one unlocks everything or nothing
+		if err := in.restart(m.Pub); err != nil {
+			c.viol("reopen-failed", last, err.Error(), hist)
+			return false
+		}
+		mm.Unlocked = false
+		if in.km.Unlock(pass(oldp)) == nil {
+			c.viol("superseded-passphrase-unlocks", "Unlock-after-restart", "the superseded private passphrase unlocks after restart", hist)
+			return false
+		}
+		if !wLockedClean(c, in, &mm, hist, "Unlock-refused-after-restart") {
+			return false
+		}
+		if err := in.km.Unlock(pass(newp)); err != nil {
+			c.viol("current-passphrase-refused", "Unlock-after-restart", err.Error(), hist)
+			return false
+		}
+		if !wAllUnlocked(in) {
+			c.viol("partial-unlock", "Unlock-after-restart", "not every keystore is unlocked after a successful Unlock", hist)
+			return false
+		}
+		in.km.Lock()
+		if !wLockedClean(c, in, &mm, hist, "Lock") {
+			return false
+		}
+		if cl, st, msg := wSignAll(c, in, &mm, false); msg != "" {
+			c.viol(cl, st, msg, hist)
+			return false
+		}
+		return true
+	}
+	depth := vk.Pick(r, 5, 6)
+	r.Set("probe_classes", []string{"other private candidate", "superseded private passphrase", "public passphrase", "ill-formed", "never-used well-formed"})
+	wRunPropWith(c, depth, func() {
+		r.Set("guarded_operation_probes_with_wrong_passphrase", probes)
+		r.Set("locked_state_secret_scans", c.lockedScans)
+	},
+		"BFS over wallet histories with guarded operations called with current, wrong, superseded, public and ill-formed passphrases; after every operation: success iff the reference says the passphrase is the current private one; while the reference is locked no keystore is unlocked, nothing signs and the in-package scan finds no working secret (master key that decrypts the crypto key, crypto key that decrypts the account key, private scalars, hash of the current passphrase) - non-working residue is counted as diagnostic only; in every state Unlock/Export/Delete/ChangePriv/Import/New are probed with 5 wrong-passphrase classes and must be refused without effect, then Export and ChangePriv with the current one must work and leave a locked wallet clean, and after a restart the superseded passphrase is dead and the new one unlocks all keystores; distinct_nontrivial = distinct canonical states")
+}
+
+func wRunPropWith(c *wCtx, depth int, extra func(), rule string) { wRunPropX(c, depth, extra, rule) }
+
+// ------------------------------------------------------------------ C01
+
+func wKsEqual(a, b *wSnapKs) string {
+	if a == nil || b == nil {
+		return "keystore missing"
+	}
+	if a.Remark != b.Remark {
+		return fmt.Sprintf("remark %q vs %q", a.Remark, b.Remark)
+	}
+	if a.Next != b.Next {
+		return fmt.Sprintf("next indices %v vs %v", a.Next, b.Next)
+	}
+	if !reflect.DeepEqual(a.Addrs, b.Addrs) {
+		return fmt.Sprintf("address/public-key sets differ: %v vs %v", a.Addrs, b.Addrs)
+	}
+	if !reflect.DeepEqual(a.AddrOf, b.AddrOf) {
+		return "address strings differ"
+	}
+	return ""
+}
+
+type wTamper struct {
+	Field string
+	Class string // "secret" (must be rejected), "metadata" (unauthenticated, effective), "inert" (never read by import)
+	Mut   func(k map[string]interface{}) bool
+}
+
+func wHexMut(section, field string, f func(b []byte) string) func(k map[string]interface{}) bool {
+	return func(k map[string]interface{}) bool {
+		sec := k[section].(map[string]interface{})
+		h, _ := sec[field].(string)
+		b, err := hex.DecodeString(h)
+		if err != nil || len(b) < 8 {
+			return false
+		}
+		sec[field] = f(b)
+		return true
+	}
+}
+
+func wTamperMenu() []wTamper {
+	var out []wTamper
+	flip := func(pos int) func(b []byte) string {
+		return func(b []byte) string {
+			p := pos
+			if p < 0 {
+				p = len(b) + p
+			}
+			if p >= len(b) {
+				p = len(b) / 2
+			}
+			c := append([]byte{}, b...)
+			c[p] ^= 1
+			return hex.EncodeToString(c)
+		}
+	}
+	blobMuts := map[string]func(b []byte) string{
+		"flip-byte0":  flip(0),
+		"flip-byte5":  flip(5),
+		"flip-middle": flip(1 << 20),
+		"flip-byte40": flip(40),
+		"flip-last":   flip(-1),
+		"truncate-1":  func(b []byte) string { return hex.EncodeToString(b[:len(b)-1]) },
+		"extend-1":    func(b []byte) string { return hex.EncodeToString(append(append([]byte{}, b...), 0)) },
+		"odd-hex":     func(b []byte) string { return hex.EncodeToString(b)[1:] },
+		"non-hex":     func(b []byte) string { return "zz" + hex.EncodeToString(b)[2:] },
+		"empty":       func(b []byte) string { return "" },
+	}
+	names := []string{"flip-byte0", "flip-byte5", "flip-middle", "flip-byte40", "flip-last", "truncate-1", "extend-1", "odd-hex", "non-hex", "empty"}
+	for _, f := range []string{"masterHDPrivKeyEnc", "privParams", "cryptoKeyPrivEnc"} {
+		for _, n := range names {
+			out = append(out, wTamper{Field: "crypto." + f + ":" + n, Class: "secret", Mut: wHexMut("crypto", f, blobMuts[n])})
+		}
+	}
+	for _, f := range []string{"pubParams", "cryptoKeyPubEnc"} {
+		for _, n := range []string{"flip-byte0", "flip-last", "truncate-1", "empty", "non-hex"} {
+			out = append(out, wTamper{Field: "crypto." + f + ":" + n, Class: "inert", Mut: wHexMut("crypto", f, blobMuts[n])})
+		}
+	}
+	for _, f := range []string{"cipher", "kdf"} {
+		f := f
+		out = append(out, wTamper{Field: "crypto." + f + ":changed", Class: "inert", Mut: func(k map[string]interface{}) bool {
+			k["crypto"].(map[string]interface{})[f] = "other"
+			return true
+		}})
+	}
+	out = append(out, wTamper{Field: "remark:changed", Class: "metadata", Mut: func(k map[string]interface{}) bool { k["remark"] = "tampered"; return true }})
+	out = append(out, wTamper{Field: "remark:wrong-type", Class: "secret", Mut: func(k map[string]interface{}) bool { k["remark"] = 7; return true }})
+	num := func(f string, class string, name string, g func(v float64) interface{}) wTamper {
+		return wTamper{Field: "hdPath." + f + ":" + name, Class: class, Mut: func(k map[string]interface{}) bool {
+			hp := k["hdPath"].(map[string]interface{})
+			v, _ := hp[f].(float64)
+			nv := g(v)
+			if nv == nil {
+				delete(hp, f)
+				return v != 0
+			}
+			if fv, ok := nv.(float64); ok && (fv < 0 || fv == v) {
+				return false
+			}
+			hp[f] = nv
+			return true
+		}}
+	}
+	for _, f := range []string{"Account", "ExternalChildNum", "InternalChildNum"} {
+		out = append(out, num(f, "metadata", "+1", func(v float64) interface{} { return v + 1 }))
+		out = append(out, num(f, "metadata", "-1", func(v float64) interface{} { return v - 1 }))
+		out = append(out, num(f, "metadata", "+3", func(v float64) interface{} { return v + 3 }))
+		out = append(out, num(f, "metadata", "missing", func(v float64) interface{} { return nil }))
+		out = append(out, num(f, "secret", "wrong-type", func(v float64) interface{} { return "x" }))
+		out = append(out, num(f, "secret", "negative", func(v float64) interface{} { return "-1" }))
+	}
+	for _, f := range []string{"Purpose", "Coin"} {
+		out = append(out, num(f, "inert", "+1", func(v float64) interface{} { return v + 1 }))
+		out = append(out, num(f, "inert", "zero", func(v float64) interface{} { return float64(0) }))
+	}
+	return out
+}
+
+func TestVerifC01(t *testing.T) {
+	r := vk.Start("C01", "exploration")
+	c := &wCtx{r: r, prop: "C01", obs: newWObs()}
+	c.ops = []wOp{
+		{K: oNew, S: 0, P: wCur, P2: -1, R: "r0"}, {K: oNew, S: 1, P: wCur, P2: -1},
+		{K: oNext, S: 0, N: 1, P2: -1}, {K: oNext, S: 0, N: 1, Internal: true, P2: -1}, {K: oNext, S: 0, N: 2, Internal: true, P2: -1},
+		{K: oGen, S: 0, P2: -1}, {K: oGen, S: 1, P2: -1},
+		{K: oUnlock, P: wCur, P2: -1}, {K: oLock, P2: -1},
+		{K: oRemark, S: 0, R: "", P2: -1},
+		{K: oChPriv, P: wCur, P2: wWrong},
+		{K: oExport, S: 0, P: wCur, P2: -1, Slot: 0}, {K: oDelete, S: 0, P: wCur, P2: -1}, {K: oImport, Slot: 0, P: wCur, P2: -1}, {K: oImport, Slot: 0, P: wPrevious, P2: wCur},
+		{K: oRestart, P: wCurPub, P2: -1},
+	}
+	menu := wTamperMenu()
+	var mu = &c.mu
+	tamperedContent := map[string]bool{}
+	var exports, imports, tampers, tamperRejected, tamperAcceptedMeta, tamperAcceptedInert int64
+	pass := func(i int) []byte { return []byte(wPass[i]) }
+
+	c.tail = func(c *wCtx, in *wInst, m *wModel, hist []wOp, res wResult) bool {
+		last := wKindName[hist[len(hist)-1].K]
+		snap1, _ := in.snapshot()
+		for seed, mk := range m.Ks {
+			id := c.obs.idOf(seed)
+			file, err := in.km.ExportKeystore(id, pass(m.Priv))
+			if err != nil {
+				c.viol("export-refused", last, err.Error(), hist)
+				return false
+			}
+			mu.Lock()
+			exports++
+			mu.Unlock()
+			ks, err := GetKeystoreFromJson(file)
+			if err != nil || ks.Remark != mk.Remark || ks.HDpath.ExternalChildNum != mk.Next[0] || ks.HDpath.InternalChildNum != mk.Next[1] {
+				c.viol("export-content", last, fmt.Sprintf("exported file says remark=%q ext=%d int=%d; reference %q %d %d", ks.Remark, ks.HDpath.ExternalChildNum, ks.HDpath.InternalChildNum, mk.Remark, mk.Next[0], mk.Next[1]), hist)
+				return false
+			}
+			// present keystore: import must be refused and change nothing
+			raw := in.rawDump()
+			if _, _, err := in.km.ImportKeystore(file, pass(m.Priv), nil); err == nil {
+				c.viol("duplicate-import-accepted", "Import", "importing a keystore that is already present succeeded", hist)
+				return false
+			}
+			if s2, _ := in.snapshot(); s2.String() != snap1.String() || !reflect.DeepEqual(raw, in.rawDump()) {
+				c.viol("refused-import-changed-wallet", "Import", "refused duplicate import changed the wallet", hist)
+				return false
+			}
+			// (b)/(c): other wallets
+			for variant := 0; variant < 4; variant++ {
+				w2, err := wOpen(wQ1, false, nil)
+				if err != nil {
+					vk.Fatalf("open second wallet: %v", err)
+				}
+				other := variant >= 2 // second wallet already holds another keystore
+				unlocked := variant%2 == 1
+				if other {
+					if _, err := w2.km.NewKeystore(pass(m.Priv), wSeed(5), "other", w2.km.params, wFast); err != nil {
+						vk.Fatalf("second wallet NewKeystore: %v", err)
+					}
+				}
+				if unlocked {
+					if err := w2.km.Unlock(pass(m.Priv)); err != nil {
+						vk.Fatalf("second wallet Unlock: %v", err)
+					}
+				}
+				// wrong passphrases first: refused, wallet unchanged
+				raw2 := w2.rawDump()
+				for _, wp := range []int{wResolvePass(m, wWrong), m.Pub, wBad, wOther} {
+					if wp == m.Priv {
+						continue
+					}
+					if _, _, err := w2.km.ImportKeystore(file, pass(wp), nil); err == nil {
+						c.viol("wrong-passphrase-import-accepted", "Import", fmt.Sprintf("import with %q accepted; file was exported under %q", wPass[wp], wPass[m.Priv]), hist)
+						w2.close()
+						return false
+					}
+					if !reflect.DeepEqual(raw2, w2.rawDump()) {
+						c.viol("refused-import-changed-wallet", "Import", "import refused for a wrong passphrase changed the target wallet", hist)
+						w2.close()
+						return false
+					}
+				}
+				if other {
+					// a wallet whose keystores use a different private passphrase refuses (new passphrase must equal the wallet's)
+					if _, _, err := w2.km.ImportKeystore(file, pass(m.Priv), pass(wOther)); err == nil {
+						c.viol("import-under-second-passphrase", "Import", "import re-encrypted under a passphrase different from the target wallet's was accepted", hist)
+						w2.close()
+						return false
+					}
+				}
+				id2, remark2, err := w2.km.ImportKeystore(file, pass(m.Priv), nil)
+				mu.Lock()
+				imports++
+				mu.Unlock()
+				if err != nil {
+					c.viol("import-refused", "Import", fmt.Sprintf("import into another wallet (holds other keystore=%v, unlocked=%v) failed: %v", other, unlocked, err), hist)
+					w2.close()
+					return false
+				}
+				if id2 != id || remark2 != mk.Remark {
+					c.viol("identity", "Import", fmt.Sprintf("import returned id %s remark %q; exported keystore is %s %q", id2, remark2, id, mk.Remark), hist)
+					w2.close()
+					return false
+				}
+				s2, e := w2.snapshot()
+				if e == "" {
+					e = wKsEqual(snap1[id], s2[id])
+				}
+				if e != "" {
+					c.viol("imported-keystore-differs", "Import", e, hist)
+					w2.close()
+					return false
+				}
+				if !unlocked {
+					if err := w2.km.Unlock(pass(m.Priv)); err != nil {
+						c.viol("unlock-after-import", "Unlock", err.Error(), hist)
+						w2.close()
+						return false
+					}
+				}
+				m2 := &wModel{Ks: map[int]*wKs{seed: mk}, Priv: m.Priv, Pub: wQ1, Unlocked: true}
+				if cl, st, msg := wSignAll(c, w2, m2, false); msg != "" {
+					c.viol(cl+"-after-import", st, msg, hist)
+					w2.close()
+					return false
+				}
+				// restart of the importing wallet
+				if err := w2.restart(wQ1); err != nil {
+					c.viol("reopen-after-import", "Restart", err.Error(), hist)
+					w2.close()
+					return false
+				}
+				s3, _ := w2.snapshot()
+				if e := wKsEqual(snap1[id], s3[id]); e != "" {
+					c.viol("imported-keystore-differs-after-restart", "Import", e, hist)
+					w2.close()
+					return false
+				}
+				w2.close()
+			}
+			// import under a NEW private passphrase into an empty wallet: the new one governs, the old one is dead
+			{
+				w4, _ := wOpen(wQ1, false, nil)
+				id4, _, err := w4.km.ImportKeystore(file, pass(m.Priv), pass(wOther))
+				if err != nil || id4 != id {
+					c.viol("import-refused", "Import-new-passphrase", fmt.Sprintf("import with a new private passphrase failed: %v", err), hist)
+					w4.close()
+					return false
+				}
+				if w4.km.Unlock(pass(m.Priv)) == nil {
+					c.viol("old-passphrase-unlocks-after-import", "Import-new-passphrase", "after import under a new private passphrase the old one still unlocks", hist)
+					w4.close()
+					return false
+				}
+				if err := w4.km.Unlock(pass(wOther)); err != nil {
+					c.viol("new-passphrase-refused-after-import", "Import-new-passphrase", err.Error(), hist)
+					w4.close()
+					return false
+				}
+				m4 := &wModel{Ks: map[int]*wKs{seed: mk}, Priv: wOther, Pub: wQ1, Unlocked: true}
+				if cl, st, msg := wSignAll(c, w4, m4, false); msg != "" {
+					c.viol(cl+"-after-import", st, msg, hist)
+					w4.close()
+					return false
+				}
+				w4.close()
+			}
+			// tamper menu, once per distinct logical file content
+			content := fmt.Sprintf("s%d %q %v pass%d unlocked=%v", seed, mk.Remark, mk.Next, m.Priv, m.Unlocked)
+			mu.Lock()
+			done := tamperedContent[content]
+			tamperedContent[content] = true
+			mu.Unlock()
+			if !done {
+				for _, tm := range menu {
+					var k map[string]interface{}
+					if err := json.Unmarshal(file, &k); err != nil {
+						vk.Fatalf("exported file is not JSON: %v", err)
+					}
+					if !tm.Mut(k) {
+						continue
+					}
+					tf, _ := json.Marshal(k)
+					w3, _ := wOpen(wQ1, false, nil)
+					if _, err := w3.km.NewKeystore(pass(m.Priv), wSeed(5), "other", w3.km.params, wFast); err != nil {
+						vk.Fatalf("third wallet: %v", err)
+					}
+					raw3 := w3.rawDump()
+					snapBefore, _ := w3.snapshot()
+					id3, _, err := w3.km.ImportKeystore(tf, pass(m.Priv), nil)
+					mu.Lock()
+					tampers++
+					mu.Unlock()
+					if err != nil {
+						mu.Lock()
+						tamperRejected++
+						mu.Unlock()
+						sa, _ := w3.snapshot()
+						if !reflect.DeepEqual(raw3, w3.rawDump()) || sa.String() != snapBefore.String() {
+							c.viol("rejected-tampered-import-changed-wallet", tm.Field, "a tampered file was rejected but the wallet changed", hist)
+							w3.close()
+							return false
+						}
+						w3.close()
+						continue
+					}
+					s3, _ := w3.snapshot()
+					same := id3 == id && wKsEqual(snap1[id], s3[id]) == ""
+					w3.close()
+					switch tm.Class {
+					case "secret":
+						c.viol("tamper-accepted", tm.Field, "a file with corrupted "+tm.Field+" was imported", hist)
+						return false
+					case "inert":
+						if !same {
+							c.viol("tamper-effective", tm.Field, "corruption of "+tm.Field+" (not read by import) changed the imported keystore", hist)
+							return false
+						}
+						mu.Lock()
+						tamperAcceptedInert++
+						mu.Unlock()
+						c.r.Violation("C01/tamper-accepted-inert/"+tm.Field[:indexOrLen(tm.Field, ':')], "a file with altered "+tm.Field+" is accepted (field is not covered by any authentication; the imported keystore is unaffected)", c.rp(hist, tm.Field))
+					case "metadata":
+						mu.Lock()
+						tamperAcceptedMeta++
+						mu.Unlock()
+						c.r.Violation("C01/tamper-accepted/"+tm.Field[:indexOrLen(tm.Field, ':')], fmt.Sprintf("a file with altered %s is accepted (unauthenticated metadata); imported keystore identical to the exported one: %v", tm.Field, same), c.rp(hist, tm.Field))
+					}
+				}
+			}
+		}
+		// (a) same wallet: delete then import restores exactly the reference state
+		for seed := range m.Ks {
+			id := c.obs.idOf(seed)
+			file, _ := in.km.ExportKeystore(id, pass(m.Priv))
+			if ok, err := in.km.DeleteKeystore(id, pass(m.Priv)); err != nil || !ok {
+				c.viol("delete-refused", "Delete", fmt.Sprint(err), hist)
+				return false
+			}
+			// with no keystore left any well-formed private passphrase may be chosen; keep the old one
+			if _, _, err := in.km.ImportKeystore(file, pass(m.Priv), nil); err != nil {
+				c.viol("reimport-refused", "Import", err.Error(), hist)
+				return false
+			}
+			s, e := in.snapshot()
+			if e == "" {
+				e = s.matchModel(m, c.obs)
+			}
+			if e != "" {
+				c.viol("reimport-differs", "Import", e, hist)
+				return false
+			}
+			if m.Unlocked {
+				if cl, st, msg := wSignAll(c, in, m, false); msg != "" {
+					c.viol(cl+"-after-reimport", st, msg, hist)
+					return false
+				}
+			}
+		}
+		return true
+	}
+	wRunPropX(c, vk.Pick(r, 4, 5), func() {
+		r.Set("exports", exports)
+		r.Set("imports_into_other_wallets", imports)
+		r.Set("tampered_files_tried", tampers)
+		r.Set("tampered_files_rejected", tamperRejected)
+		r.Set("tampered_metadata_accepted", tamperAcceptedMeta)
+		r.Set("tampered_inert_accepted", tamperAcceptedInert)
+		r.Set("tamper_menu_size", len(menu))
+		r.Set("distinct_file_contents_tampered", len(tamperedContent))
+	},
+		"BFS over wallet histories (keys on both branches in all reachable mixes incl. zero/unequal counts, issued locked or unlocked, passphrase change, remark change, restart, earlier export/delete/import); in every state every keystore is exported and (1) re-import while present is refused without effect, (2) imported into 4 other wallets (empty / holding another keystore x locked / unlocked): wrong passphrases refused without effect, same id, remark, (branch,index)->pubkey/address maps and counters, every key signs after unlock, same after restart of the importing wallet, (3) every entry of the single-field tamper menu is applied and imported into a wallet holding another keystore: corrupted secret-bearing blobs/ill-typed fields must be rejected with the wallet byte-identical, (4) delete+import in the same wallet restores the reference state; distinct_nontrivial = distinct canonical states")
+}
+
+func indexOrLen(s string, b byte) int {
+	for i := 0; i < len(s); i++ {
+		if s[i] == b {
+			return i
+		}
+	}
+	return len(s)
 }
